@@ -55,7 +55,7 @@ const InitRev uint64 = 1000
 type nopMetrics struct{}
 
 func (nopMetrics) GetGrpcServerOption() []grpc.ServerOption { return nil }
-func (nopMetrics) GetHttpHandlers() map[string]http.Handler  { return nil }
+func (nopMetrics) GetHttpHandlers() map[string]http.Handler { return nil }
 func (nopMetrics) EmitCounter(name string, value interface{}, tags ...metrics.T) error {
 	return nil
 }
